@@ -1,28 +1,50 @@
 //! C03: N-Triples / N-Quads serialisation round-trips every dataset exactly.
 //!
-//! Three streams of cases, all derived from --seed:
-//!  * dataset (about 75 %): a list of well-formed strict / RDF-star quads with nasty lexical forms,
+//! Streams of cases, all derived from --seed:
+//!  * dataset (about 67 %): a list of well-formed strict / RDF-star quads with nasty lexical forms,
 //!    labels, tags, IRIs and graph names is serialised with sophia's NqSerializer / NtSerializer;
 //!    ORACLE (plain Rust, independent of the model): sophia's parsers (nq, gnq, nt) read the text
 //!    back to exactly the same quads (tags up to ASCII case), the text has one LF per quad, no CR,
 //!    and every line on its own parses to the corresponding quad;
 //!    Coq: `case_ok` = well-formed per the Coq predicate, model writer bytes == implementation
 //!    bytes, reference reader reads the implementation's bytes back to the same quads.
+//!    WIDENED: the text is produced through EVERY public way of writing (stringifier / any
+//!    io::Write incl. one that takes a few bytes per call and one that fails, serialize_dataset /
+//!    serialize_graph on Vec, slice, & and &mut, serialize_quads / serialize_triples on iterator
+//!    sources, several calls on one serialiser, configs built with set_ascii, the public
+//!    write_triple / write_term by hand, quads made of Rio's model types behind `Trusted`, parser
+//!    piped into serialiser); one way, drawn from the seed, gives the bytes that go to the oracle
+//!    and to Coq, all the others must give the same bytes.  The text is read back through every
+//!    public way of reading (parse_bufread / parse_str / Parser::parse on readers with tiny
+//!    buffers / parse_str of the trait; for_each, try_for_each with to_spog, step by step with
+//!    to_s/to_p/to_o/to_g, collect, add_to, a sink that fails once and resumes); every accessor of
+//!    every term the parsers hand out is compared with the others (`view`).
+//!  * generalized (about 8 %): any term (variables included) at any position; written by the same
+//!    serialisers, read back by the generalised parser (ORACLE); Coq: `gen_case_ok`.
 //!  * w3c-label (about 5 %): labels legal for the W3C grammar but refused by BnodeId::new
 //!    (consecutive dots, ':'), built unchecked; Coq side only (Rio's verdict is tallied).
-//!  * reader (about 20 %): hand-formatted N-Quads text with ECHAR / UCHAR escapes, white space,
+//!  * reader (about 17 %): hand-formatted N-Quads text with ECHAR / UCHAR escapes, white space,
 //!    comments, CRLF, possibly one mutation making it malformed; sophia's parser and the Coq
 //!    reference reader must agree (same quads, or both reject): validates the reference reader.
+//!    All the ways of reading must agree with each other on these texts too.
+use rio_api::model as rm;
+use rio_api::model::{GeneralizedQuad, GeneralizedTerm, Variable};
+use sophia_api::parser::{QuadParser, TripleParser};
 use sophia_api::prelude::*;
 use sophia_api::quad::Spog;
 use sophia_api::serializer::{QuadSerializer, Stringifier, TripleSerializer};
-use sophia_api::source::{QuadSource, TripleSource};
+use sophia_api::source::{QuadSource, StreamError, TripleSource};
 use sophia_api::term::{BnodeId, LanguageTag, Term, TermKind};
-use sophia_turtle::serializer::{nq::NqSerializer, nt::NtSerializer};
+use sophia_rio::model::Trusted;
+use sophia_turtle::parser::{gnq, gnq::GNQuadsParser, nq, nq::NQuadsParser, nt, nt::NTriplesParser};
+use sophia_turtle::serializer::nt::{write_term, write_triple, NtConfig};
+use sophia_turtle::serializer::{nq::NqConfig, nq::NqSerializer, nt::NtSerializer};
+use std::convert::Infallible;
+use std::io;
 use verif_harness::*;
 
 #[derive(Clone, Debug, PartialEq)]
-enum T { Iri(String), B(String), Lit(String, String), Lang(String, String), Tr(Box<[T; 3]>) }
+enum T { Iri(String), B(String), Lit(String, String), Lang(String, String), Tr(Box<[T; 3]>), Var(String) }
 type Q = (T, T, T, Option<T>);
 
 fn to_st(t: &T) -> ST {
@@ -32,6 +54,7 @@ fn to_st(t: &T) -> ST {
         T::Lit(l, d) => lit_dt(l, d),
         T::Lang(l, g) => lit_lang(l, g),
         T::Tr(b) => triple(to_st(&b[0]), to_st(&b[1]), to_st(&b[2])),
+        T::Var(s) => var(s),
     }
 }
 fn from_term<X: Term>(x: X) -> T {
@@ -43,7 +66,7 @@ fn from_term<X: Term>(x: X) -> T {
             None => T::Lit(x.lexical_form().unwrap().to_string(), x.datatype().unwrap().as_str().to_string()),
         },
         TermKind::Triple => { let [s, p, o] = x.triple().unwrap(); T::Tr(Box::new([from_term(s), from_term(p), from_term(o)])) }
-        TermKind::Variable => T::Iri(format!("?variable?{}", x.variable().unwrap().as_str())),
+        TermKind::Variable => T::Var(x.variable().unwrap().as_str().to_string()),
     }
 }
 /// exact equality, except language tags up to ASCII case
@@ -66,6 +89,7 @@ fn c_term(t: &T) -> String {
         T::Lit(l, d) => format!("(LitDt {} {})", coq_str(l), coq_str(d)),
         T::Lang(l, g) => format!("(LitLang {} {})", coq_str(l), coq_str(g)),
         T::Tr(b) => format!("(Triple {} {} {})", c_term(&b[0]), c_term(&b[1]), c_term(&b[2])),
+        T::Var(s) => format!("(Var {})", coq_str(s)),
     }
 }
 /// expected quads are printed from the plain data; `coq_term` of the harness lib prints the sophia
@@ -75,7 +99,7 @@ fn c_quad(q: &Q) -> String {
 }
 fn c_quads(qs: &[Q]) -> String { coq_list(qs.iter().map(c_quad)) }
 fn show(t: &T) -> String {
-    match t { T::Iri(s) => format!("<{s}>"), T::B(s) => format!("_:{s}"), T::Lit(l, d) => format!("{l:?}^^<{d}>"), T::Lang(l, g) => format!("{l:?}@{g}"), T::Tr(b) => format!("<<{} {} {}>>", show(&b[0]), show(&b[1]), show(&b[2])) }
+    match t { T::Iri(s) => format!("<{s}>"), T::B(s) => format!("_:{s}"), T::Lit(l, d) => format!("{l:?}^^<{d}>"), T::Lang(l, g) => format!("{l:?}@{g}"), T::Tr(b) => format!("<<{} {} {}>>", show(&b[0]), show(&b[1]), show(&b[2])), T::Var(s) => format!("?{s}") }
 }
 fn show_q(q: &Q) -> String { format!("{} {} {} {}", show(&q.0), show(&q.1), show(&q.2), q.3.as_ref().map(show).unwrap_or("(default graph)".into())) }
 
@@ -94,6 +118,416 @@ fn parse_nt(bytes: &[u8]) -> Result<Vec<Q>, String> {
     let mut out = vec![];
     sophia_turtle::parser::nt::parse_bufread(bytes).for_each_triple(|t| out.push((from_term(t.s()), from_term(t.p()), from_term(t.o()), None))).map_err(|e| e.to_string())?;
     Ok(out)
+}
+
+// ---------- every accessor of a term, compared with the others ----------
+const RDF_LANGSTRING: &str = "http://www.w3.org/1999/02/22-rdf-syntax-ns#langString";
+const XSD_STRING: &str = "http://www.w3.org/2001/XMLSchema#string";
+/// The plain image of `x` built from kind() and the accessors of that kind, after checking that
+/// all the OTHER accessors answer None, that a language-tagged string has datatype
+/// rdf:langString, and that borrow_term(), to_triple(), into_term() and Term::eq show the same
+/// term.  Problems are pushed on `errs`.
+fn view<X: Term>(x: X, errs: &mut Vec<String>) -> T {
+    let k = x.kind();
+    let mut missing = |what: &str| { errs.push(format!("{what}() is None for a term of kind {k:?}")); String::new() };
+    let t = match k {
+        TermKind::Iri => T::Iri(x.iri().map(|i| i.as_str().to_string()).unwrap_or_else(|| missing("iri"))),
+        TermKind::BlankNode => T::B(x.bnode_id().map(|i| i.as_str().to_string()).unwrap_or_else(|| missing("bnode_id"))),
+        TermKind::Variable => T::Var(x.variable().map(|i| i.as_str().to_string()).unwrap_or_else(|| missing("variable"))),
+        TermKind::Literal => {
+            let lex = x.lexical_form().map(|l| l.to_string()).unwrap_or_else(|| missing("lexical_form"));
+            match x.language_tag() {
+                Some(tag) => T::Lang(lex, tag.as_str().to_string()),
+                None => T::Lit(lex, x.datatype().map(|i| i.as_str().to_string()).unwrap_or_else(|| missing("datatype"))),
+            }
+        }
+        TermKind::Triple => match x.triple() {
+            Some([s, p, o]) => T::Tr(Box::new([view(s, errs), view(p, errs), view(o, errs)])),
+            None => { errs.push("triple() is None for a term of kind Triple".into()); T::Iri(String::new()) }
+        },
+    };
+    let table = [
+        ("iri", x.iri().is_some(), k == TermKind::Iri),
+        ("bnode_id", x.bnode_id().is_some(), k == TermKind::BlankNode),
+        ("variable", x.variable().is_some(), k == TermKind::Variable),
+        ("lexical_form", x.lexical_form().is_some(), k == TermKind::Literal),
+        ("datatype", x.datatype().is_some(), k == TermKind::Literal),
+        ("language_tag", x.language_tag().is_some(), matches!(t, T::Lang(..))),
+        ("triple", x.triple().is_some(), k == TermKind::Triple),
+        ("to_triple", x.borrow_term().to_triple().is_some(), k == TermKind::Triple),
+    ];
+    for (name, some, want) in table {
+        if some != want { errs.push(format!("{name}() is {} for the term {} of kind {k:?}", if some { "Some" } else { "None" }, show(&t))); }
+    }
+    if let T::Lang(..) = &t {
+        match x.datatype() {
+            Some(d) if d.as_str() == RDF_LANGSTRING => {}
+            other => errs.push(format!("datatype() of the language-tagged string {} is {:?}", show(&t), other.map(|d| d.as_str().to_string()))),
+        }
+    }
+    let b = x.borrow_term();
+    if b.kind() != k { errs.push(format!("borrow_term() of {} has kind {:?}, the term has kind {k:?}", show(&t), b.kind())); }
+    else {
+        let tb = from_term(b);
+        if tb != t { errs.push(format!("borrow_term() of {} shows {}", show(&t), show(&tb))); }
+        if let Some([s, p, o]) = x.borrow_term().to_triple() {
+            let tt = T::Tr(Box::new([from_term(s), from_term(p), from_term(o)]));
+            if tt != t { errs.push(format!("to_triple() of {} shows {}", show(&t), show(&tt))); }
+        }
+        let st: ST = x.borrow_term().into_term();
+        let ts = from_term(&st);
+        if ts != t { errs.push(format!("into_term() of {} gives {}", show(&t), show(&ts))); }
+        if !Term::eq(&x, st.borrow_term()) { errs.push(format!("Term::eq of {} and its own copy is false", show(&t))); }
+    }
+    t
+}
+
+// ---------- every public way of reading ----------
+type Rd = Result<Vec<Q>, String>;
+fn finish(out: Vec<Q>, errs: Vec<String>) -> Rd { if errs.is_empty() { Ok(out) } else { Err(format!("INCONSISTENT TERM VIEW: {}", errs.join("; "))) } }
+const READ_MODES: &[&str] = &["for_each+s/p/o/g", "try_for_each+to_spog", "step-by-step+to_s/to_p/to_o/to_g", "collect", "add_to", "failing-sink"];
+/// consume a quad source in the way number `mode`; `k` varies the details
+fn consume_quads<S: QuadSource>(mut src: S, mode: usize, k: usize) -> Rd {
+    let mut out: Vec<Q> = vec![];
+    let mut errs: Vec<String> = vec![];
+    match mode {
+        0 => src.for_each_quad(|q| { let e = &mut errs; out.push((view(q.s(), e), view(q.p(), e), view(q.o(), e), q.g().map(|g| view(g, e)))) }).map_err(|e| e.to_string())?,
+        1 => src.try_for_each_quad(|q| -> Result<(), MyErr> { let e = &mut errs; let ([s, p, o], g) = q.to_spog(); out.push((view(s, e), view(p, e), view(o, e), g.map(|g| view(g, e)))); Ok(()) }).map_err(|e| e.to_string())?,
+        2 => loop {
+            let more = src.try_for_some_quad(|q| -> Result<(), MyErr> {
+                let e = &mut errs;
+                let mut b = (view(q.s(), e), view(q.p(), e), view(q.o(), e), q.g().map(|g| view(g, e)));
+                match (out.len() + k) % 4 {
+                    0 => { let v = view(q.to_s(), e); if v != b.0 { e.push(format!("to_s() shows {}, s() shows {}", show(&v), show(&b.0))); } b.0 = v; }
+                    1 => { let v = view(q.to_p(), e); if v != b.1 { e.push(format!("to_p() shows {}, p() shows {}", show(&v), show(&b.1))); } b.1 = v; }
+                    2 => { let v = view(q.to_o(), e); if v != b.2 { e.push(format!("to_o() shows {}, o() shows {}", show(&v), show(&b.2))); } b.2 = v; }
+                    _ => { let v = q.to_g().map(|g| view(g, e)); if v != b.3 { e.push(format!("to_g() shows {:?}, g() shows {:?}", v.as_ref().map(show), b.3.as_ref().map(show))); } b.3 = v; }
+                }
+                out.push(b);
+                Ok(())
+            }).map_err(|e| e.to_string())?;
+            if !more { break; }
+        },
+        3 => { let d: Vec<Spog<ST>> = src.collect_quads().map_err(|e| e.to_string())?; out = d.iter().map(|q| (from_term(&q.0[0]), from_term(&q.0[1]), from_term(&q.0[2]), q.1.as_ref().map(from_term))).collect(); }
+        4 => {
+            let mut d: Vec<Spog<ST>> = vec![];
+            let n = src.add_to_dataset(&mut d).map_err(|e| e.to_string())?;
+            if n != d.len() { return Err(format!("add_to_dataset returned {n} for {} quads", d.len())); }
+            out = d.iter().map(|q| (from_term(&q.0[0]), from_term(&q.0[1]), from_term(&q.0[2]), q.1.as_ref().map(from_term))).collect();
+        }
+        _ => {
+            // the sink fails on quad number k (after taking it); the failure must come back as
+            // SinkError with the sink's own value, at once.  The result is the quads delivered so far
+            // (the caller compares them with the first k+1 quads of the whole document)
+            let mut n = 0usize;
+            let res = src.try_for_each_quad(|q| -> Result<(), MyErr> { let e = &mut errs; out.push((view(q.s(), e), view(q.p(), e), view(q.o(), e), q.g().map(|g| view(g, e)))); n += 1; if n == k + 1 { Err(MyErr(k as u64)) } else { Ok(()) } });
+            match res {
+                Ok(()) => if out.len() > k { return Err(format!("the sink failed on quad {k} and the source reported success")); },
+                Err(StreamError::SinkError(MyErr(c))) => {
+                    if c != k as u64 || out.len() != k + 1 { return Err(format!("the sink failed on quad {k} with MyErr({k}); got SinkError(MyErr({c})) after {} quads", out.len())); }
+                }
+                Err(StreamError::SourceError(e)) => return Err(e.to_string()),
+            }
+        }
+    }
+    finish(out, errs)
+}
+fn consume_triples<S: TripleSource>(mut src: S, mode: usize, k: usize) -> Rd {
+    let mut out: Vec<Q> = vec![];
+    let mut errs: Vec<String> = vec![];
+    match mode {
+        0 => src.for_each_triple(|q| { let e = &mut errs; out.push((view(q.s(), e), view(q.p(), e), view(q.o(), e), None)) }).map_err(|e| e.to_string())?,
+        1 => src.try_for_each_triple(|q| -> Result<(), MyErr> { let e = &mut errs; let [s, p, o] = q.to_spo(); out.push((view(s, e), view(p, e), view(o, e), None)); Ok(()) }).map_err(|e| e.to_string())?,
+        2 => loop {
+            let more = src.try_for_some_triple(|q| -> Result<(), MyErr> {
+                let e = &mut errs;
+                let mut b = (view(q.s(), e), view(q.p(), e), view(q.o(), e), None);
+                match (out.len() + k) % 3 {
+                    0 => { let v = view(q.to_s(), e); if v != b.0 { e.push(format!("to_s() shows {}, s() shows {}", show(&v), show(&b.0))); } b.0 = v; }
+                    1 => { let v = view(q.to_p(), e); if v != b.1 { e.push(format!("to_p() shows {}, p() shows {}", show(&v), show(&b.1))); } b.1 = v; }
+                    _ => { let v = view(q.to_o(), e); if v != b.2 { e.push(format!("to_o() shows {}, o() shows {}", show(&v), show(&b.2))); } b.2 = v; }
+                }
+                out.push(b);
+                Ok(())
+            }).map_err(|e| e.to_string())?;
+            if !more { break; }
+        },
+        3 => { let d: Vec<[ST; 3]> = src.collect_triples().map_err(|e| e.to_string())?; out = d.iter().map(|q| (from_term(&q[0]), from_term(&q[1]), from_term(&q[2]), None)).collect(); }
+        4 => {
+            let mut d: Vec<[ST; 3]> = vec![];
+            let n = src.add_to_graph(&mut d).map_err(|e| e.to_string())?;
+            if n != d.len() { return Err(format!("add_to_graph returned {n} for {} triples", d.len())); }
+            out = d.iter().map(|q| (from_term(&q[0]), from_term(&q[1]), from_term(&q[2]), None)).collect();
+        }
+        _ => {
+            let mut n = 0usize;
+            let res = src.try_for_each_triple(|q| -> Result<(), MyErr> { let e = &mut errs; out.push((view(q.s(), e), view(q.p(), e), view(q.o(), e), None)); n += 1; if n == k + 1 { Err(MyErr(k as u64)) } else { Ok(()) } });
+            match res {
+                Ok(()) => if out.len() > k { return Err(format!("the sink failed on triple {k} and the source reported success")); },
+                Err(StreamError::SinkError(MyErr(c))) => {
+                    if c != k as u64 || out.len() != k + 1 { return Err(format!("the sink failed on triple {k} with MyErr({k}); got SinkError(MyErr({c})) after {} triples", out.len())); }
+                }
+                Err(StreamError::SourceError(e)) => return Err(e.to_string()),
+            }
+        }
+    }
+    finish(out, errs)
+}
+const READ_ENTRIES: &[&str] = &["parse_bufread", "mod::parse_str", "Parser::parse(BufReader, tiny buffer)", "Parser.parse_str", "Parser::parse(Cursor)"];
+/// all the ways of reading `bytes` with one parser: (name, result)
+macro_rules! read_paths {
+    ($name:ident, $module:ident, $parser:ident, $ptrait:ident, $consume:ident) => {
+        fn $name(bytes: &[u8], k: usize) -> Vec<(String, Rd)> {
+            let txt = std::str::from_utf8(bytes).ok();
+            let mut v = vec![];
+            for mode in 0..READ_MODES.len() {
+                let mut entry = (mode + k) % READ_ENTRIES.len();
+                if txt.is_none() && (entry == 1 || entry == 3) { entry = 0; }
+                let res = match entry {
+                    1 => $consume($module::parse_str(txt.unwrap()), mode, k % 4),
+                    2 => $consume($ptrait::parse(&$parser::default(), io::BufReader::with_capacity(1 + k % 7, bytes)), mode, k % 4),
+                    3 => $consume($parser {}.parse_str(txt.unwrap()), mode, k % 4),
+                    4 => $consume($parser::default().parse(io::Cursor::new(bytes.to_vec())), mode, k % 4),
+                    _ => $consume($module::parse_bufread(bytes), mode, k % 4),
+                };
+                // the failing sink stops early: what it saw must be the first k+1 quads of the document
+                let res = if mode != 5 { res } else { match (res, $consume($module::parse_bufread(bytes), 0, 0)) {
+                    (Ok(pre), Ok(full)) => if pre.len() == full.len().min(k % 4 + 1) && pre[..] == full[..pre.len()] { Ok(full) } else { Err(format!("a sink failing on statement {} was given {pre:?}; the document is {full:?}", k % 4)) },
+                    (Err(e), _) | (_, Err(e)) => Err(e),
+                } };
+                v.push((format!("{}:{}/{}", stringify!($module), READ_ENTRIES[entry], READ_MODES[mode]), res));
+            }
+            v
+        }
+    };
+}
+read_paths!(nq_read_paths, nq, NQuadsParser, QuadParser, consume_quads);
+read_paths!(gnq_read_paths, gnq, GNQuadsParser, QuadParser, consume_quads);
+read_paths!(nt_read_paths, nt, NTriplesParser, TripleParser, consume_triples);
+/// the quads sophia's N-Quads parser delivers before it stops, and whether it stopped on a source error
+fn nq_prefix(bytes: &[u8]) -> (Vec<Q>, Option<bool>) {
+    let mut out = vec![];
+    let res = nq::parse_bufread(bytes).try_for_each_quad(|q| -> Result<(), MyErr> { out.push((from_term(q.s()), from_term(q.p()), from_term(q.o()), q.g().map(from_term))); Ok(()) });
+    (out, match res { Ok(()) => None, Err(StreamError::SourceError(_)) => Some(true), Err(StreamError::SinkError(_)) => Some(false) })
+}
+
+// ---------- Rio's model types (what `Trusted` wraps), built by hand from the plain data ----------
+fn leak<'a, X: 'a>(x: X) -> &'a X { Box::leak(Box::new(x)) }
+fn rio_lit<'a>(t: &'a T, alt: bool) -> rm::Literal<'a> {
+    match t {
+        T::Lit(l, d) => if d == XSD_STRING && alt { rm::Literal::Simple { value: l } } else { rm::Literal::Typed { value: l, datatype: rm::NamedNode { iri: d } } },
+        T::Lang(l, g) => rm::Literal::LanguageTaggedString { value: l, language: g },
+        _ => panic!("not a literal"),
+    }
+}
+fn iri_of(t: &T) -> &str { match t { T::Iri(s) => s, _ => panic!("not an IRI") } }
+fn rio_subject<'a>(t: &'a T, alt: bool) -> rm::Subject<'a> {
+    match t { T::Iri(s) => rm::NamedNode { iri: s }.into(), T::B(s) => rm::BlankNode { id: s }.into(), T::Tr(b) => rm::Subject::Triple(leak(rio_triple(b, alt))), _ => panic!("not a strict subject") }
+}
+fn rio_term<'a>(t: &'a T, alt: bool) -> rm::Term<'a> {
+    match t { T::Iri(s) => rm::NamedNode { iri: s }.into(), T::B(s) => rm::BlankNode { id: s }.into(), T::Lit(..) | T::Lang(..) => rio_lit(t, alt).into(), T::Tr(b) => rm::Term::Triple(leak(rio_triple(b, alt))), T::Var(_) => panic!("not a strict term") }
+}
+fn rio_triple<'a>(b: &'a [T; 3], alt: bool) -> rm::Triple<'a> { rm::Triple { subject: rio_subject(&b[0], alt), predicate: rm::NamedNode { iri: iri_of(&b[1]) }, object: rio_term(&b[2], alt) } }
+fn rio_graph<'a>(t: &'a T) -> rm::GraphName<'a> { match t { T::Iri(s) => rm::NamedNode { iri: s }.into(), T::B(s) => rm::BlankNode { id: s }.into(), _ => panic!("not a strict graph name") } }
+fn rio_quad<'a>(q: &'a Q, alt: bool) -> rm::Quad<'a> { rm::Quad { subject: rio_subject(&q.0, alt), predicate: rm::NamedNode { iri: iri_of(&q.1) }, object: rio_term(&q.2, alt), graph_name: q.3.as_ref().map(rio_graph) } }
+fn rio_gterm<'a>(t: &'a T, alt: bool) -> GeneralizedTerm<'a> {
+    match t {
+        T::Iri(s) => rm::NamedNode { iri: s }.into(), T::B(s) => rm::BlankNode { id: s }.into(), T::Lit(..) | T::Lang(..) => rio_lit(t, alt).into(), T::Var(s) => Variable { name: s }.into(),
+        T::Tr(b) => GeneralizedTerm::Triple(leak([rio_gterm(&b[0], alt), rio_gterm(&b[1], alt), rio_gterm(&b[2], alt)])),
+    }
+}
+fn rio_gquad<'a>(q: &'a Q, alt: bool) -> GeneralizedQuad<'a> { GeneralizedQuad { subject: rio_gterm(&q.0, alt), predicate: rio_gterm(&q.1, alt), object: rio_gterm(&q.2, alt), graph_name: q.3.as_ref().map(|g| rio_gterm(g, alt)) } }
+fn strict_at(t: &T, pos: usize) -> bool {
+    match t { T::Iri(_) => true, T::B(_) => pos != 1, T::Lit(..) | T::Lang(..) => pos == 2, T::Var(_) => false, T::Tr(b) => (pos == 0 || pos == 2) && strict_at(&b[0], 0) && strict_at(&b[1], 1) && strict_at(&b[2], 2) }
+}
+fn strict_q(q: &Q) -> bool { strict_at(&q.0, 0) && strict_at(&q.1, 1) && strict_at(&q.2, 2) && q.3.as_ref().is_none_or(|g| strict_at(g, 3)) }
+/// the term wrapped in the most specific Rio type (`Trusted<NamedNode>`, `Trusted<BlankNode>`,
+/// `Trusted<Literal>`, `Trusted<Variable>`, `Trusted<GraphName>`, ...), bound to the given name for the given expression
+macro_rules! with_single {
+    ($t:expr, $pos:expr, $alt:expr, $x:ident => $body:expr) => {{
+        let (t, pos, alt): (&T, usize, bool) = ($t, $pos, $alt);
+        match t {
+            T::Iri(s) if pos == 3 && alt => { let $x = Trusted(rm::GraphName::NamedNode(rm::NamedNode { iri: s })); $body }
+            T::B(s) if pos == 3 && alt => { let $x = Trusted(rm::GraphName::BlankNode(rm::BlankNode { id: s })); $body }
+            T::Iri(s) => { let $x = Trusted(rm::NamedNode { iri: s }); $body }
+            T::B(s) => { let $x = Trusted(rm::BlankNode { id: s }); $body }
+            T::Lit(..) | T::Lang(..) => { let $x = Trusted(rio_lit(t, alt)); $body }
+            T::Var(s) => { let $x = Trusted(Variable { name: s }); $body }
+            T::Tr(_) => if strict_at(t, 2) && !alt { let $x = Trusted(rio_term(t, alt)); $body } else { let $x = Trusted(rio_gterm(t, alt)); $body },
+        }
+    }};
+}
+/// all the Rio wrappers of the terms of `quads` show the plain data they were built from
+fn check_rio_views(quads: &[Q], alt: bool, errs: &mut Vec<String>) {
+    fn rec(t: &T, pos: usize, alt: bool, errs: &mut Vec<String>) {
+        let v = with_single!(t, pos, alt, x => view(x, errs)); if v != *t { errs.push(format!("the most specific Rio wrapper of {} shows {}", show(t), show(&v))); }
+        let v = view(Trusted(rio_gterm(t, !alt)), errs); if v != *t { errs.push(format!("Trusted<GeneralizedTerm> of {} shows {}", show(t), show(&v))); }
+        if strict_at(t, 2) { let v = view(Trusted(rio_term(t, !alt)), errs); if v != *t { errs.push(format!("Trusted<rio Term> of {} shows {}", show(t), show(&v))); } }
+        if let T::Tr(b) = t { for i in 0..3 { rec(&b[i], i, !alt, errs); } }
+    }
+    for q in quads { rec(&q.0, 0, alt, errs); rec(&q.1, 1, alt, errs); rec(&q.2, 2, !alt, errs); if let Some(g) = &q.3 { rec(g, 3, alt, errs); } }
+}
+
+// ---------- writers ----------
+/// takes at most `k` bytes per call and is interrupted now and then (write_all must cope)
+struct Chunky { buf: Vec<u8>, k: usize, calls: usize }
+impl io::Write for Chunky {
+    fn write(&mut self, b: &[u8]) -> io::Result<usize> {
+        self.calls += 1;
+        if self.calls % 5 == 3 { return Err(io::Error::new(io::ErrorKind::Interrupted, "interrupted")); }
+        let n = b.len().min(self.k); self.buf.extend_from_slice(&b[..n]); Ok(n)
+    }
+    fn flush(&mut self) -> io::Result<()> { Ok(()) }
+}
+/// takes `budget` bytes in all, then fails
+struct FailAfter { buf: Vec<u8>, budget: usize }
+impl io::Write for FailAfter {
+    fn write(&mut self, b: &[u8]) -> io::Result<usize> {
+        if b.is_empty() { return Ok(0); }
+        if self.budget == 0 { return Err(io::Error::new(io::ErrorKind::Other, "disk full")); }
+        let n = b.len().min(self.budget); self.budget -= n; self.buf.extend_from_slice(&b[..n]); Ok(n)
+    }
+    fn flush(&mut self) -> io::Result<()> { Ok(()) }
+}
+fn spog_ref(q: &Spog<ST>) -> Spog<&ST> { (q.0.each_ref(), q.1.as_ref()) }
+type Wr = Result<Vec<u8>, String>;
+const W_CALLS: usize = 4; // index of the several-calls way in the lists below
+const W_HAND: usize = 5;
+const W_SINGLE: usize = 8;
+const WRITE_WAYS: &[&str] = &["new_stringifier/serialize_dataset|graph(&Vec)/as_utf8", "new(Vec)/serialize_quads|triples(iterator source)/to_string", "new_with_config(&mut few-bytes-per-call writer)/serialize_dataset|graph(&&[..])", "new_stringifier_with_config(set_ascii(true).set_ascii(false))/serialize_dataset|graph(&&mut Vec | &&Vec)/as_str",
+    "several calls on one serialiser", "write_triple + write_term by hand", "source of Trusted<rio Quad|Triple>", "source of Trusted<GeneralizedQuad>", "write_term on the most specific Rio wrapper of each term, by hand"];
+fn plain_config() -> NtConfig { let mut c = NtConfig::default(); c.set_ascii(true).set_ascii(false); c.clone() }
+fn utf8_of<S: Stringifier>(s: &S, how: usize) -> Vec<u8> { match how % 3 { 0 => s.as_utf8().to_vec(), 1 => s.as_str().as_bytes().to_vec(), _ => Stringifier::to_string(s).into_bytes() } }
+/// serialise as N-Quads in the way number `way`; None: the way does not apply to these quads
+fn write_nq(way: usize, quads: &[Q], cuts: &[usize], k: usize) -> Option<Wr> {
+    let d: Vec<Spog<ST>> = quads.iter().map(|q| ([to_st(&q.0), to_st(&q.1), to_st(&q.2)], q.3.as_ref().map(to_st))).collect();
+    let alt = k % 2 == 1;
+    let e = |x: &dyn std::fmt::Display| x.to_string();
+    Some(match way {
+        0 => { let mut s = NqSerializer::new_stringifier(); match s.serialize_dataset(&d) { Ok(_) => Ok(s.as_utf8().to_vec()), Err(x) => Err(e(&x)) } }
+        1 => { let mut s = NqSerializer::new(Vec::new()); match s.serialize_quads(d.iter().map(|q| Ok::<_, Infallible>(spog_ref(q)))) { Ok(_) => Ok(Stringifier::to_string(&s).into_bytes()), Err(x) => Err(e(&x)) } }
+        2 => { let mut w = Chunky { buf: vec![], k: 1 + k % 5, calls: k }; let r = { let mut s = NqSerializer::new_with_config(&mut w, plain_config()); let _ = s.config(); s.serialize_dataset(&&d[..]).map(|_| ()).map_err(|x| e(&x)) }; r.map(|()| w.buf) }
+        3 => { let mut s = NqSerializer::new_stringifier_with_config(plain_config()); let mut dm = d.clone(); let r = if alt { s.serialize_dataset(&&mut dm).map(|_| ()).map_err(|x| e(&x)) } else { s.serialize_dataset(&&d).map(|_| ()).map_err(|x| e(&x)) }; r.map(|()| utf8_of(&s, k)) }
+        4 => {
+            let mut s = NqSerializer::new_stringifier(); let mut from = 0; let mut res = Ok(());
+            for &to in cuts.iter().chain([d.len()].iter()) { if let Err(x) = s.serialize_quads(d[from..to].iter().map(|q| Ok::<_, Infallible>(spog_ref(q)))) { res = Err(e(&x)); break; } from = to; }
+            // chained: serialize_quads returns the serialiser itself
+            if cuts.is_empty() && res.is_ok() { if let Err(x) = s.serialize_quads(std::iter::empty::<Result<Spog<&ST>, Infallible>>()).and_then(|s2| s2.serialize_dataset(&Vec::<Spog<ST>>::new())) { res = Err(e(&x)); } }
+            res.map(|()| utf8_of(&s, k))
+        }
+        5 => {
+            let mut w: Vec<u8> = vec![];
+            let mut go = || -> io::Result<()> { for q in &d { write_triple(&mut w, q.0.each_ref())?; if let Some(g) = &q.1 { io::Write::write_all(&mut w, b" ")?; write_term(&mut w, g)?; } io::Write::write_all(&mut w, b".\n")?; } Ok(()) };
+            match go() { Ok(()) => Ok(w), Err(x) => Err(e(&x)) }
+        }
+        6 => { if !quads.iter().all(strict_q) { return None; } let rq: Vec<rm::Quad> = quads.iter().map(|q| rio_quad(q, alt)).collect(); let mut s = NqSerializer::new_stringifier(); match s.serialize_quads(rq.iter().map(|q| Ok::<_, Infallible>(Trusted(*q)))) { Ok(_) => Ok(utf8_of(&s, k)), Err(x) => Err(e(&x)) } }
+        7 => { let rq: Vec<GeneralizedQuad> = quads.iter().map(|q| rio_gquad(q, alt)).collect(); let mut s = NqSerializer::new_stringifier(); match s.serialize_quads(rq.iter().map(|q| Ok::<_, Infallible>(Trusted(q.clone())))) { Ok(_) => Ok(utf8_of(&s, k)), Err(x) => Err(e(&x)) } }
+        _ => {
+            let mut w: Vec<u8> = vec![];
+            let mut go = || -> io::Result<()> {
+                for (i, q) in quads.iter().enumerate() {
+                    let a = (i + k) % 2 == 0;
+                    with_single!(&q.0, 0, a, x => write_term(&mut w, x))?; io::Write::write_all(&mut w, b" ")?;
+                    with_single!(&q.1, 1, !a, x => write_term(&mut w, x))?; io::Write::write_all(&mut w, b" ")?;
+                    with_single!(&q.2, 2, a, x => write_term(&mut w, x))?;
+                    if let Some(g) = &q.3 { io::Write::write_all(&mut w, b" ")?; with_single!(g, 3, !a, x => write_term(&mut w, x))?; }
+                    io::Write::write_all(&mut w, b".\n")?;
+                }
+                Ok(())
+            };
+            match go() { Ok(()) => Ok(w), Err(x) => Err(e(&x)) }
+        }
+    })
+}
+/// serialise as N-Triples (graph names ignored) in the way number `way`
+fn write_nt(way: usize, quads: &[Q], cuts: &[usize], k: usize) -> Option<Wr> {
+    let d: Vec<[ST; 3]> = quads.iter().map(|q| [to_st(&q.0), to_st(&q.1), to_st(&q.2)]).collect();
+    let alt = k % 2 == 1;
+    let e = |x: &dyn std::fmt::Display| x.to_string();
+    Some(match way {
+        0 => { let mut s = NtSerializer::new_stringifier(); match s.serialize_graph(&d) { Ok(_) => Ok(s.as_utf8().to_vec()), Err(x) => Err(e(&x)) } }
+        1 => { let mut s = NtSerializer::new(Vec::new()); match s.serialize_triples(d.iter().map(|q| Ok::<_, Infallible>(q.each_ref()))) { Ok(_) => Ok(Stringifier::to_string(&s).into_bytes()), Err(x) => Err(e(&x)) } }
+        2 => { let mut w = Chunky { buf: vec![], k: 1 + k % 5, calls: k }; let r = { let mut s = NtSerializer::new_with_config(&mut w, plain_config()); let _ = s.config(); s.serialize_graph(&&d[..]).map(|_| ()).map_err(|x| e(&x)) }; r.map(|()| w.buf) }
+        3 => { let mut s = NtSerializer::new_stringifier_with_config(plain_config()); let mut dm = d.clone(); let r = if alt { s.serialize_graph(&&mut dm).map(|_| ()).map_err(|x| e(&x)) } else { s.serialize_graph(&&d).map(|_| ()).map_err(|x| e(&x)) }; r.map(|()| utf8_of(&s, k)) }
+        4 => {
+            let mut s = NtSerializer::new_stringifier(); let mut from = 0; let mut res = Ok(());
+            for &to in cuts.iter().chain([d.len()].iter()) { if let Err(x) = s.serialize_triples(d[from..to].iter().map(|q| Ok::<_, Infallible>(q.each_ref()))) { res = Err(e(&x)); break; } from = to; }
+            if cuts.is_empty() && res.is_ok() { if let Err(x) = s.serialize_triples(std::iter::empty::<Result<[&ST; 3], Infallible>>()).and_then(|s2| s2.serialize_graph(&Vec::<[ST; 3]>::new())) { res = Err(e(&x)); } }
+            res.map(|()| utf8_of(&s, k))
+        }
+        5 => {
+            let mut w: Vec<u8> = vec![];
+            let mut go = || -> io::Result<()> { for q in &d { write_triple(&mut w, q.each_ref())?; io::Write::write_all(&mut w, b".\n")?; } Ok(()) };
+            match go() { Ok(()) => Ok(w), Err(x) => Err(e(&x)) }
+        }
+        6 => { if !quads.iter().all(strict_q) { return None; } let rq: Vec<rm::Triple> = quads.iter().map(|q| { let x = rio_quad(q, alt); rm::Triple { subject: x.subject, predicate: x.predicate, object: x.object } }).collect(); let mut s = NtSerializer::new_stringifier(); match s.serialize_triples(rq.iter().map(|q| Ok::<_, Infallible>(Trusted(*q)))) { Ok(_) => Ok(utf8_of(&s, k)), Err(x) => Err(e(&x)) } }
+        7 => {
+            // there is no generalised triple type in Rio: triples of Trusted<GeneralizedTerm>
+            let rq: Vec<[Trusted<GeneralizedTerm>; 3]> = quads.iter().map(|q| [Trusted(rio_gterm(&q.0, alt)), Trusted(rio_gterm(&q.1, alt)), Trusted(rio_gterm(&q.2, alt))]).collect();
+            let mut s = NtSerializer::new_stringifier(); match s.serialize_graph(&rq) { Ok(_) => Ok(utf8_of(&s, k)), Err(x) => Err(e(&x)) }
+        }
+        _ => {
+            let mut w: Vec<u8> = vec![];
+            let mut go = || -> io::Result<()> {
+                for (i, q) in quads.iter().enumerate() {
+                    let a = (i + k) % 2 == 0;
+                    with_single!(&q.0, 0, a, x => write_term(&mut w, x))?; io::Write::write_all(&mut w, b" ")?;
+                    with_single!(&q.1, 1, !a, x => write_term(&mut w, x))?; io::Write::write_all(&mut w, b" ")?;
+                    with_single!(&q.2, 2, a, x => write_term(&mut w, x))?;
+                    io::Write::write_all(&mut w, b".\n")?;
+                }
+                Ok(())
+            };
+            match go() { Ok(()) => Ok(w), Err(x) => Err(e(&x)) }
+        }
+    })
+}
+/// a writer that fails after `budget` bytes: the serialiser must report a sink error (never
+/// success) and must have written exactly the first `budget` bytes of the full text
+fn failing_writer_check(nq: bool, quads: &[Q], full: &[u8], budget: usize) -> Result<(), String> {
+    let mut w = FailAfter { buf: vec![], budget };
+    let res: Result<(), Option<bool>> = if nq {
+        let d: Vec<Spog<ST>> = quads.iter().map(|q| ([to_st(&q.0), to_st(&q.1), to_st(&q.2)], q.3.as_ref().map(to_st))).collect();
+        NqSerializer::new(&mut w).serialize_dataset(&d).map(|_| ()).map_err(|x| Some(matches!(x, StreamError::SinkError(_))))
+    } else {
+        let d: Vec<[ST; 3]> = quads.iter().map(|q| [to_st(&q.0), to_st(&q.1), to_st(&q.2)]).collect();
+        NtSerializer::new(&mut w).serialize_graph(&d).map(|_| ()).map_err(|x| Some(matches!(x, StreamError::SinkError(_))))
+    };
+    let want = &full[..budget.min(full.len())];
+    if w.buf != want { return Err(format!("a writer failing after {budget} bytes received {:?}, not the first {budget} bytes of the text", String::from_utf8_lossy(&w.buf))); }
+    match res {
+        Ok(()) if budget < full.len() => Err(format!("a writer failing after {budget} bytes (text of {} bytes): the serialiser reported success", full.len())),
+        Err(Some(false)) => Err("a failing writer was reported as a SOURCE error".into()),
+        Err(_) if budget >= full.len() => Err(format!("the serialiser failed although the writer accepted all {} bytes", full.len())),
+        _ => Ok(()),
+    }
+}
+thread_local! { static QUIET: std::cell::Cell<bool> = const { std::cell::Cell::new(false) }; }
+/// the `ascii` configuration: not implemented (todo!()) in this version; if it ever returns, the
+/// text must be pure ASCII and is checked like any other
+fn ascii_attempt(nq: bool, quads: &[Q]) -> Option<Wr> {
+    QUIET.with(|q| q.set(true));
+    let r = std::panic::catch_unwind(|| {
+        let mut c = NqConfig::default(); c.set_ascii(true);
+        if nq {
+            let d: Vec<Spog<ST>> = quads.iter().map(|q| ([to_st(&q.0), to_st(&q.1), to_st(&q.2)], q.3.as_ref().map(to_st))).collect();
+            let mut s = NqSerializer::new_stringifier_with_config(c); s.serialize_dataset(&d).map(|_| ()).map_err(|x| x.to_string()).map(|()| s.as_utf8().to_vec())
+        } else {
+            let d: Vec<[ST; 3]> = quads.iter().map(|q| [to_st(&q.0), to_st(&q.1), to_st(&q.2)]).collect();
+            let mut s = NtSerializer::new_stringifier_with_config(c); s.serialize_graph(&d).map(|_| ()).map_err(|x| x.to_string()).map(|()| s.as_utf8().to_vec())
+        }
+    });
+    QUIET.with(|q| q.set(false));
+    r.ok()
+}
+/// parser piped straight into a serialiser (the items are Rio's types behind `Trusted`)
+fn pipe(kind: &str, bytes: &[u8]) -> Wr {
+    let e = |x: &dyn std::fmt::Display| x.to_string();
+    match kind {
+        "nq" => { let mut s = NqSerializer::new_stringifier(); s.serialize_quads(nq::parse_bufread(bytes)).map(|_| ()).map_err(|x| e(&x))?; Ok(s.as_utf8().to_vec()) }
+        "gnq" => { let mut s = NqSerializer::new_stringifier(); s.serialize_quads(gnq::parse_bufread(bytes)).map(|_| ()).map_err(|x| e(&x))?; Ok(s.as_utf8().to_vec()) }
+        _ => { let mut s = NtSerializer::new_stringifier(); s.serialize_triples(nt::parse_bufread(bytes)).map(|_| ()).map_err(|x| e(&x))?; Ok(s.as_utf8().to_vec()) }
+    }
 }
 
 // ---------- generators ----------
@@ -202,8 +636,34 @@ fn gen_tag(r: &mut Rng, lower_only: bool) -> String {
 /// accepted by LanguageTag::new (documented as more permissive than BCP47) but not BCP47
 const LAX_TAGS: &[&str] = &["a-u-12", "i-private", "a", "en-x", "a1", "en1-us", "abcdefghi", "en-a"];
 const DATATYPES: &[&str] = &["http://www.w3.org/2001/XMLSchema#string", "http://www.w3.org/2001/XMLSchema#string", "http://www.w3.org/2001/XMLSchema#integer", "http://www.w3.org/2001/XMLSchema#String", "http://www.w3.org/2001/XMLSchema#strin", "http://www.w3.org/2001/XMLSchema#string1", "http://www.w3.org/1999/02/22-rdf-syntax-ns#HTML", "x:dt"];
-struct Gen<'a> { r: Rng, sum: &'a mut Summary, lower_tags: bool, w3c_labels: bool, lax_tags: bool }
+/// relative IRI references (generalised RDF only).  The empty reference `<>` is left out: in a build
+/// with debug assertions Rio's generalised parser (gtriple_allocator.rs, `dummy()`) mistakes an empty
+/// IRI for its own place-holder and panics; that is a debug assertion of the third-party crate.
+const REL_IRIS: &[&str] = &["#f", "../x", "a/b", "//h.example/p", "?q=1", "x", "\u{e9}/y#z"];
+const VAR_CHARS: &[&str] = &["x", "Y", "_", "0", "9", "\u{e9}", "\u{3b1}", "\u{10000}", "\u{3001}", "v", "n1"];
+/// allowed by VARNAME after the first character, but not read back by Rio's generalised parser
+const VAR_EXT: &[&str] = &["\u{b7}", "\u{300}", "\u{203f}", "\u{2040}", "\u{36f}"];
+struct Gen<'a> { r: Rng, sum: &'a mut Summary, lower_tags: bool, w3c_labels: bool, lax_tags: bool, ext_var: bool }
 impl Gen<'_> {
+    fn var(&mut self) -> T {
+        let mut s = pk(&mut self.r, VAR_CHARS).to_string();
+        for _ in 0..self.r.below(4) { s.push_str(pk(&mut self.r, VAR_CHARS)); }
+        if self.r.chance(1, 12) { s.push_str(pk(&mut self.r, VAR_EXT)); s.push_str(pk(&mut self.r, VAR_CHARS)); self.ext_var = true; }
+        assert!(sophia_api::term::VarName::new(s.as_str()).is_ok());
+        T::Var(s)
+    }
+    /// any kind of term (generalised RDF)
+    fn gterm(&mut self, depth: usize) -> T {
+        match self.r.below(if depth > 0 { 12 } else { 10 }) {
+            0 => T::Iri(pk(&mut self.r, REL_IRIS).to_string()), 1 | 2 => T::Iri(gen_iri(&mut self.r, self.sum)), 3 | 4 => self.bnode(), 5 | 6 => self.literal(), 7..=9 => self.var(),
+            _ => T::Tr(Box::new([self.gterm(depth - 1), self.gterm(depth - 1), self.gterm(depth - 1)])),
+        }
+    }
+    fn gquad(&mut self, graphs: bool) -> Q {
+        let depth = if self.r.chance(1, 3) { self.r.range(1, 2) } else { 0 };
+        let g = if !graphs || self.r.chance(1, 3) { None } else { Some(self.gterm(depth.min(1))) };
+        (self.gterm(depth), self.gterm(0), self.gterm(depth), g)
+    }
     fn bnode(&mut self) -> T { if self.w3c_labels { T::B(gen_label_raw(&mut self.r, true)) } else { T::B(gen_label(&mut self.r, self.sum)) } }
     fn literal(&mut self) -> T {
         let lex = gen_lex(&mut self.r);
@@ -231,7 +691,7 @@ fn nasty(t: &T) -> bool {
         T::B(s) => !s.is_ascii() || s.contains('.') || s.chars().next().unwrap().is_ascii_digit(),
         T::Lit(l, _) => l.chars().any(|c| (c as u32) < 32 || c == '"' || c == '\\' || !c.is_ascii()),
         T::Lang(l, g) => l.chars().any(|c| (c as u32) < 32 || c == '"' || c == '\\' || !c.is_ascii()) || g.chars().any(|c| c.is_ascii_uppercase()),
-        T::Tr(_) => true,
+        T::Tr(_) | T::Var(_) => true,
     }
 }
 
@@ -261,6 +721,7 @@ fn fmt_term(r: &mut Rng, t: &T) -> String {
         T::Lit(l, d) => if d == "http://www.w3.org/2001/XMLSchema#string" && r.chance(2, 3) { format!("\"{}\"", esc_lex(r, l)) } else { format!("\"{}\"^^<{}>", esc_lex(r, l), esc_iri(r, d)) },
         T::Lang(l, g) => format!("\"{}\"@{g}", esc_lex(r, l)),
         T::Tr(b) => { let (s, p, o) = (fmt_term(r, &b[0]), fmt_term(r, &b[1]), fmt_term(r, &b[2])); let e1 = s.ends_with('>'); let e2 = o.ends_with('>') || o.ends_with('"'); format!("<<{}{s}{}{p}{}{o}{}>>", ws(r, true), ws(r, e1), ws(r, true), ws(r, e2)) }
+        T::Var(s) => format!("?{s}"),
     }
 }
 fn fmt_doc(r: &mut Rng, qs: &[Q], bare_cr: bool) -> String {
@@ -307,8 +768,11 @@ fn mutate(r: &mut Rng, doc: &str) -> (String, &'static str) {
 
 fn main() {
     let a = parse_args();
+    // the `ascii` option panics with todo!(): keep that quiet, everything else as usual
+    let hook = std::panic::take_hook();
+    std::panic::set_hook(Box::new(move |info| if !QUIET.with(|q| q.get()) { hook(info) }));
     let mut sum = Summary::default();
-    sum.rule = "case = dataset of 0..4 well-formed strict/RDF-star quads (subjects IRI|bnode|quoted triple up to depth 3, objects also literals; lexical forms over all C0 controls, DEL, quotes, backslashes, CR/LF/TAB, non-BMP, combining marks, injection attempts; labels with dots / leading digits / middle dot / non-ASCII; BCP47 tags in random case; default / IRI / blank graph names) serialised as N-Quads or N-Triples, or a hand-formatted N-Quads text (escapes, white space, comments, one optional mutation); \
+    sum.rule = "case = dataset of 0..4 well-formed strict/RDF-star quads (subjects IRI|bnode|quoted triple up to depth 3, objects also literals; lexical forms over all C0 controls, DEL, quotes, backslashes, CR/LF/TAB, non-BMP, combining marks, injection attempts; labels with dots / leading digits / middle dot / non-ASCII; BCP47 tags in random case; default / IRI / blank graph names) serialised as N-Quads or N-Triples through every public way of writing (one way drawn from the seed gives the text, the others must agree) and read back through every public way of reading, or a generalised dataset (variables, relative IRIs, any kind of term at any position) read back by the generalised parser, or a hand-formatted N-Quads text (escapes, white space, comments, one optional mutation); \
 non-trivial = the dataset is non-empty and some term needs escaping, is non-ASCII, is a dotted/digit-leading label, an upper-case tag or a quoted triple (for reader cases: the text contains a backslash escape or is mutated); distinct = distinct serialised / formatted texts".into();
     let base = Rng::new(a.seed);
     let mut cases: Vec<(usize, String)> = vec![];
@@ -316,11 +780,11 @@ non-trivial = the dataset is non-empty and some term needs escaping, is non-ASCI
     let range: Vec<usize> = match a.only { Some(i) => vec![i], None => (0..a.n).collect() };
     for idx in range {
         let mut r = base.fork(idx as u64);
-        let stream = match r.below(40) { 0 | 1 => "w3c-label", 2 => "lax-tag", 3..=9 => "reader", _ => "dataset" };
-        let nq = (stream != "dataset" && stream != "lax-tag") || r.chance(2, 3);
+        let stream = match r.below(40) { 0 | 1 => "w3c-label", 2 => "lax-tag", 3..=9 => "reader", 10..=12 => "generalized", _ => "dataset" };
+        let nq = (stream != "dataset" && stream != "lax-tag" && stream != "generalized") || r.chance(2, 3);
         let nquads = match r.below(10) { 0 => 0, 1..=4 => 1, 5..=7 => 2, _ => r.range(3, 4) };
-        let mut g = Gen { r: r.fork(1), sum: &mut sum, lower_tags: stream == "reader", w3c_labels: stream == "w3c-label", lax_tags: stream == "lax-tag" };
-        let mut quads: Vec<Q> = (0..nquads).map(|_| g.quad(nq)).collect();
+        let mut g = Gen { r: r.fork(1), sum: &mut sum, lower_tags: stream == "reader", w3c_labels: stream == "w3c-label", lax_tags: stream == "lax-tag", ext_var: false };
+        let mut quads: Vec<Q> = (0..nquads).map(|_| if stream == "generalized" { g.gquad(nq) } else { g.quad(nq) }).collect();
         // related statements: the same triple in another graph, an exact duplicate, the same subject/predicate
         // with another object ... next to the original or at the end (writers must not merge or drop any of them)
         if stream == "dataset" && !quads.is_empty() && g.r.chance(1, 3) {
@@ -338,6 +802,7 @@ non-trivial = the dataset is non-empty and some term needs escaping, is non-ASCI
         }
         if stream == "lax-tag" { let l = g.literal(); quads.push((T::Iri("x:s".into()), T::Iri("x:p".into()), l, None)); }
         if stream == "w3c-label" && !quads.iter().any(|q| matches!(q.0, T::B(_)) || matches!(q.2, T::B(_))) { quads.push((g.bnode(), T::Iri("x:p".into()), g.bnode(), None)); }
+        let ext_var = g.ext_var;
         sum.evaluations += 1;
         sum.bump(&format!("stream:{stream}"));
         if stream == "reader" {
@@ -354,9 +819,24 @@ non-trivial = the dataset is non-empty and some term needs escaping, is non-ASCI
             }
             let mutated = r.chance(1, 4);
             let mut mname = "none";
+            let clean = if mutated { parse_nq(text.as_bytes()).ok() } else { None };
             if mutated { let (d, m) = mutate(&mut r, &text); text = d; mname = m; }
             let bytes = text.as_bytes();
             let res = parse_nq(bytes);
+            // all the ways of reading agree with the plain one (same quads, or all reject)
+            for (name, other) in nq_read_paths(bytes, idx) {
+                let agree = match (&res, &other) { (Ok(a), Ok(b)) => a == b, (Err(_), Err(_)) => true, _ => false };
+                if !agree { sum.oracle_failures.push((idx.to_string(), format!("reading the text {text:?}: nq::parse_bufread + for_each_quad gives {res:?} but {name} gives {other:?}"))); }
+            }
+            // strict N-Quads is a subset of generalised N-Quads: same quads there
+            if let Ok(got) = &res {
+                match parse_gnq(bytes) { Ok(g2) if g2 == *got => sum.bump("reader:accepted:gnq-reads-the-same"), g2 => sum.oracle_failures.push((idx.to_string(), format!("reading the text {text:?}: the N-Quads parser gives {got:?}, the generalised one {g2:?}"))) }
+            } else {
+                // a malformed statement: the statements before it were delivered, and the failure is a SOURCE error
+                let (pre, stop) = nq_prefix(bytes);
+                if stop != Some(true) { sum.oracle_failures.push((idx.to_string(), format!("reading the malformed text {text:?}: try_for_each_quad with a sink that never fails ended with {stop:?} (Some(true) = source error)"))); }
+                if let Some(c) = &clean { if pre == *c { sum.bump("reader:rejected:statements-before-the-malformed-one-all-delivered"); } else { sum.oracle_failures.push((idx.to_string(), format!("reading the text {text:?} whose last line is malformed: delivered {pre:?} before the error, the well-formed part is {c:?}"))); } }
+            }
             let body = match &res {
                 Ok(got) => {
                     sum.bump("reader:accepted-by-sophia");
@@ -385,55 +865,126 @@ non-trivial = the dataset is non-empty and some term needs escaping, is non-ASCI
             continue;
         }
         let lax = stream == "lax-tag";
-        // (a) serialise with the implementation
-        let bytes: Vec<u8> = if nq {
-            let d: Vec<Spog<ST>> = quads.iter().map(|q| ([to_st(&q.0), to_st(&q.1), to_st(&q.2)], q.3.as_ref().map(to_st))).collect();
-            let mut ser = NqSerializer::new_stringifier();
-            ser.serialize_dataset(&d).unwrap();
-            ser.as_utf8().to_vec()
-        } else {
-            let d: Vec<[ST; 3]> = quads.iter().map(|q| [to_st(&q.0), to_st(&q.1), to_st(&q.2)]).collect();
-            let mut ser = NtSerializer::new_stringifier();
-            ser.serialize_graph(&d).unwrap();
-            ser.as_utf8().to_vec()
+        let gnr = stream == "generalized";
+        // (a) serialise with the implementation: one way drawn from the seed gives THE text, all the
+        // other public ways must give the same bytes
+        let mut r2 = r.fork(7);
+        let k = r2.below(1000);
+        let ncuts = if quads.is_empty() { 0 } else { r2.below(3) };
+        let mut cuts: Vec<usize> = (0..ncuts).map(|_| r2.below(quads.len() + 1)).collect();
+        cuts.sort();
+        // a panic inside one way of writing is reported like a wrong text (the message is printed as usual)
+        let writer = |way: usize| std::panic::catch_unwind(std::panic::AssertUnwindSafe(|| if nq { write_nq(way, &quads, &cuts, k) } else { write_nt(way, &quads, &cuts, k) })).unwrap_or_else(|_| Some(Err("PANIC".into())));
+        let mut fails: Vec<String> = vec![];
+        let mut way = r2.below(WRITE_WAYS.len());
+        let first = match writer(way) { Some(x) => x, None => { way = 0; writer(0).unwrap() } };
+        let bytes: Vec<u8> = match first {
+            Ok(b) => b,
+            Err(e) => {
+                fails.push(format!("writing by [{}] fails on an in-memory target: {e}", WRITE_WAYS[way]));
+                way = 0;
+                writer(0).unwrap().unwrap_or_else(|e| panic!("case {idx}: the serialiser failed on an in-memory target ({}): {e}", WRITE_WAYS[0]))
+            }
         };
         let text = String::from_utf8_lossy(&bytes).to_string();
         sum.bump(if nq { "format:nq" } else { "format:nt" });
+        sum.bump(&format!("write-way:{}", WRITE_WAYS[way]));
         sum.bump(&format!("quads:{}", quads.len()));
         for q in &quads {
             if has_tr(&q.0) || has_tr(&q.2) { sum.bump("quad-with-quoted-triple"); }
-            match &q.3 { None => sum.bump("graph:default"), Some(T::Iri(_)) => sum.bump("graph:iri"), Some(_) => sum.bump("graph:bnode") }
+            if gnr { if strict_q(q) { sum.bump("generalized:strict-quad"); } else { sum.bump("generalized:non-strict-quad"); } if [&q.0, &q.1, &q.2].iter().any(|t| matches!(t, T::Var(_))) || matches!(q.3, Some(T::Var(_))) { sum.bump("generalized:quad-with-variable"); } }
+            match &q.3 { None => sum.bump("graph:default"), Some(T::Iri(_)) => sum.bump("graph:iri"), Some(T::B(_)) => sum.bump("graph:bnode"), Some(_) => sum.bump("graph:other-term(generalized)") }
             if let T::Lit(l, _) | T::Lang(l, _) = &q.2 { if l.contains('\r') { sum.bump("object-literal-with-CR"); } if l.contains('\u{0}') { sum.bump("object-literal-with-U+0000"); } if l.ends_with('\\') { sum.bump("object-literal-ending-in-backslash"); } }
         }
-        if a.only.is_some() { println!("CASE {idx} ({stream}, {}):", if nq { "nq" } else { "nt" }); for q in &quads { println!("  {}", show_q(q)); } println!("text: {text:?}"); }
+        if a.only.is_some() { println!("CASE {idx} ({stream}, {}, written by: {}, cuts {cuts:?}, k {k}):", if nq { "nq" } else { "nt" }, WRITE_WAYS[way]); for q in &quads { println!("  {}", show_q(q)); } println!("text: {text:?}"); }
         // (b) ORACLE
-        if lax {
-            match parse_nq(&bytes) { Ok(got) if same_qs(&got, &quads) => sum.bump("lax-tag(not BCP47, accepted by LanguageTag::new):sophia-reads-back"), Ok(_) => sum.bump("lax-tag(not BCP47, accepted by LanguageTag::new):sophia-reads-differently"), Err(_) => sum.bump("lax-tag(not BCP47, accepted by LanguageTag::new):sophia-parser-rejects-own-output") }
+        if std::str::from_utf8(&bytes).is_err() { fails.push("the serialised text is not UTF-8".into()); }
+        for w in (0..WRITE_WAYS.len()).filter(|w| *w != way) {
+            match writer(w) {
+                None => {}
+                Some(Err(e)) => fails.push(format!("writing by [{}] fails: {e}", WRITE_WAYS[w])),
+                Some(Ok(b)) => if b != bytes { fails.push(format!("writing by [{}] gives {:?}, writing by [{}] gives the text below", WRITE_WAYS[w], String::from_utf8_lossy(&b), WRITE_WAYS[way])) },
+            }
+        }
+        // the budget of the failing writer: anywhere, near the end of the text, or near the end of a statement
+        let budget = match r2.below(3) {
+            0 => r2.below(bytes.len() + 2),
+            1 => bytes.len().saturating_sub(r2.below(4)),
+            _ => { let lfs: Vec<usize> = bytes.iter().enumerate().filter(|(_, b)| **b == b'\n').map(|(i, _)| i).collect(); if lfs.is_empty() { 0 } else { (lfs[r2.below(lfs.len())] + 2).saturating_sub(r2.below(4)) } }
+        };
+        if let Err(e) = failing_writer_check(nq, &quads, &bytes, budget) { fails.push(e); }
+        { let mut errs = vec![]; if std::panic::catch_unwind(std::panic::AssertUnwindSafe(|| check_rio_views(&quads, k % 2 == 0, &mut errs))).is_err() { errs.push("PANIC while looking at the Rio wrappers of the terms".into()); } fails.extend(errs); }
+        let base: fn(&[u8]) -> Rd = if gnr { parse_gnq } else if nq { parse_nq } else { parse_nt };
+        let enforce = !lax && !ext_var;
+        if !enforce {
+            let what = if lax { "lax-tag(not BCP47, accepted by LanguageTag::new)" } else { "generalized:variable-name-with-U+00B7/combining/tie(VARNAME, not read by Rio)" };
+            match base(&bytes) { Ok(got) if same_qs(&got, &quads) => sum.bump(&format!("{what}:sophia-reads-back")), Ok(_) => sum.bump(&format!("{what}:sophia-reads-differently")), Err(_) => sum.bump(&format!("{what}:sophia-parser-rejects-own-output")) }
         } else {
-            let mut fail = |what: String| sum.oracle_failures.push((idx.to_string(), format!("{} of the dataset [{}]: {what}; serialised text {text:?}", if nq { "N-Quads round trip" } else { "N-Triples round trip" }, quads.iter().map(show_q).collect::<Vec<_>>().join(" | "))));
-            let parsers: Vec<(&str, fn(&[u8]) -> Result<Vec<Q>, String>)> = if nq { vec![("nq", parse_nq), ("gnq", parse_gnq)] } else { vec![("nt", parse_nt), ("nq", parse_nq)] };
-            for (name, p) in &parsers {
-                match p(&bytes) {
-                    Err(e) => fail(format!("sophia's {name} parser rejects the serialiser's output: {e}")),
-                    Ok(got) => if !same_qs(&got, &quads) { fail(format!("sophia's {name} parser reads back different quads: {}", got.iter().map(show_q).collect::<Vec<_>>().join(" | "))) },
+            let mut readers: Vec<(String, Rd)> = vec![];
+            if gnr { readers.push(("gnq".into(), parse_gnq(&bytes))); readers.extend(gnq_read_paths(&bytes, k)); }
+            else if nq { readers.push(("nq".into(), parse_nq(&bytes))); readers.push(("gnq".into(), parse_gnq(&bytes))); readers.extend(nq_read_paths(&bytes, k)); readers.extend(gnq_read_paths(&bytes, k + 1)); }
+            else { readers.push(("nt".into(), parse_nt(&bytes))); readers.push(("nq".into(), parse_nq(&bytes))); readers.extend(nt_read_paths(&bytes, k)); readers.extend(nq_read_paths(&bytes, k + 1)); }
+            for (name, res) in &readers {
+                match res {
+                    Err(e) => fails.push(format!("sophia's {name} parser rejects the serialiser's output: {e}")),
+                    Ok(got) => if !same_qs(got, &quads) { fails.push(format!("sophia's {name} parser reads back different quads: {}", got.iter().map(show_q).collect::<Vec<_>>().join(" | "))) },
                 }
             }
             let lf = bytes.iter().filter(|b| **b == b'\n').count();
-            if lf != quads.len() || bytes.contains(&b'\r') { fail(format!("{lf} LF bytes (CR present: {}) for {} quads", bytes.contains(&b'\r'), quads.len())); }
+            if lf != quads.len() || bytes.contains(&b'\r') { fails.push(format!("{lf} LF bytes (CR present: {}) for {} quads", bytes.contains(&b'\r'), quads.len())); }
             else {
                 let lines: Vec<&[u8]> = bytes.split_inclusive(|b| *b == b'\n').collect();
                 for (i, l) in lines.iter().enumerate() {
-                    match parsers[0].1(l) { Ok(got) if got.len() == 1 && same_q(&got[0], &quads[i]) => {}, other => fail(format!("line {i} alone does not parse to quad {i}: {:?}", other)) }
+                    match base(l) { Ok(got) if got.len() == 1 && same_q(&got[0], &quads[i]) => {}, other => fails.push(format!("line {i} alone does not parse to quad {i}: {:?}", other)) }
+                }
+            }
+            // parser piped into serialiser: the text of what the parser read (tags in the parser's case)
+            if let Ok(got) = base(&bytes) {
+                let expect = if nq { write_nq(0, &got, &[], k) } else { write_nt(0, &got, &[], k) }.unwrap();
+                let kinds: &[&str] = if gnr { &["gnq"] } else if nq { &["nq", "gnq"] } else { &["nt", "nq"] };
+                for kind in kinds {
+                    let piped = pipe(kind, &bytes);
+                    if piped != expect { fails.push(format!("the {kind} parser piped into the serialiser gives {:?}, serialising the quads it reads gives {:?}", piped.as_ref().map(|b| String::from_utf8_lossy(b).to_string()), expect.as_ref().map(|b| String::from_utf8_lossy(b).to_string()))); }
+                    else if got == quads && piped.as_ref().ok() != Some(&bytes) { fails.push(format!("the {kind} parser piped into the serialiser does not reproduce the text")); }
+                }
+            }
+            // the `ascii` option
+            if r2.chance(1, 4) {
+                match ascii_attempt(nq, &quads) {
+                    None => sum.bump("ascii-config:not-implemented(todo!() panics, nothing written)"),
+                    Some(Err(e)) => fails.push(format!("with set_ascii(true) the serialiser fails: {e}")),
+                    Some(Ok(b)) => { sum.bump("ascii-config:returns-text"); if !b.is_ascii() { fails.push(format!("with set_ascii(true) the text is not ASCII: {:?}", String::from_utf8_lossy(&b))); } match base(&b) { Ok(got) if same_qs(&got, &quads) => {}, other => fails.push(format!("with set_ascii(true) the text {:?} reads back as {other:?}", String::from_utf8_lossy(&b))) } }
                 }
             }
         }
+        for what in fails { sum.oracle_failures.push((idx.to_string(), format!("{} of the dataset [{}] (written by [{}]): {what}; serialised text {text:?}", if nq { "N-Quads round trip" } else { "N-Triples round trip" }, quads.iter().map(show_q).collect::<Vec<_>>().join(" | "), WRITE_WAYS[way]))); }
         // (c) Coq case
         for q in &quads { assert_eq!(coq_term(&to_st(&q.2)), c_term(&q.2)); assert_eq!(coq_term(&to_st(&q.0)), c_term(&q.0)); }
         let nontrivial = !quads.is_empty() && quads.iter().any(|q| nasty(&q.0) || nasty(&q.1) || nasty(&q.2) || q.3.as_ref().is_some_and(nasty));
         if seen.insert(text.clone()) && nontrivial { sum.distinct_nontrivial += 1; }
         if sum.samples.len() < 6 && nontrivial && idx % 5 == 0 { sum.samples.push(format!("case {idx} ({stream}): {text:?}")); }
-        if lax { cases.push((idx, format!("(if {0} then write_ok {1} {2} else nt_write_ok {1} {2}) && (if wf_quads {1} then read_ok {2} {1} else true)", coq_bool(nq), c_quads(&quads), coq_bytes(&bytes)))); }
-        else { cases.push((idx, format!("case_ok {} {} {}", coq_bool(nq), c_quads(&quads), coq_bytes(&bytes)))); }
+        let calls: Vec<&[Q]> = { let mut v = vec![]; let mut from = 0; for &to in cuts.iter().chain([quads.len()].iter()) { v.push(&quads[from..to]); from = to; } v };
+        let c_calls = coq_list(calls.iter().map(|c| c_quads(c)));
+        let mut body =
+            if lax { format!("(if {0} then write_ok {1} {2} else nt_write_ok {1} {2}) && (if wf_quads {1} then read_ok {2} {1} else true)", coq_bool(nq), c_quads(&quads), coq_bytes(&bytes)) }
+            else if gnr { format!("gen_case_ok {} {} {}", coq_bool(nq), c_quads(&quads), coq_bytes(&bytes)) }
+            else if way == W_CALLS { format!("case_calls_ok {} {} {}", coq_bool(nq), c_calls, coq_bytes(&bytes)) }
+            else { format!("case_ok {} {} {}", coq_bool(nq), c_quads(&quads), coq_bytes(&bytes)) };
+        if way == W_CALLS && (lax || gnr) { body = format!("{body} && write_calls_ok {} {} {}", coq_bool(nq), c_calls, coq_bytes(&bytes)); }
+        if way == W_HAND || way == W_SINGLE {
+            // the public write_term on its own, for the terms of the first two statements
+            let mut pairs = vec![];
+            for (i, q) in quads.iter().take(2).enumerate() {
+                for (pos, t) in [(0, Some(&q.0)), (1, Some(&q.1)), (2, Some(&q.2)), (3, q.3.as_ref())] {
+                    let Some(t) = t else { continue };
+                    let mut w: Vec<u8> = vec![];
+                    if way == W_HAND { write_term(&mut w, to_st(t)).unwrap(); } else { with_single!(t, pos, (i + pos + k) % 2 == 0, x => write_term(&mut w, x)).unwrap(); }
+                    pairs.push(format!("({}, {})", c_term(t), coq_bytes(&w)));
+                }
+            }
+            body = format!("{body} && terms_ok {}", coq_list(pairs));
+        }
+        cases.push((idx, body));
     }
     if a.only.is_none() {
         let header = "From Sophia.Common Require Import Prelude Term.\nFrom Sophia.C03 Require Import Model.\n";
